@@ -191,6 +191,9 @@ func runC19(c *Ctx) {
 	batchPerMessage(c, "R4")
 	blockingDelivery(c, "R4", p.MustMethod("gossip", "SimpleNotifier", "Alert"), "an alert")
 	optionalVersionByPresence(c, "R4", p.MustMethod("client", "HTTPClient", "MembershipDigest"), 2)
+	dedupKeyCoversTheBatch(c, "R4")
+	storePostsOnce(c, "R3")
+	loopGoroutinesOwnTheirVariables(c, "R4", []string{"gossip", "cmd"})
 	// ---------------- publisher
 	pub := cmdTaskClosure(p, "publisherFactory")
 	if pub == nil {
